@@ -297,7 +297,7 @@ func judgeSend(id *identity, rq *request, r runResult, before, after map[string]
 		return
 	}
 	if m.unsat {
-		what := fmt.Sprintf("%s: -f with a first amount (%d) below the fee (%d) cannot be satisfied, yet %s was written", ctx, c.Dests[0].Amount, m.fee, name)
+		what := fmt.Sprintf("%s: -f with a first amount (%d) below the fee (%d) cannot be satisfied, yet a transaction file was written", ctx, c.Dests[0].Amount, m.fee)
 		if t, err := decodeTxFile(content); err == nil {
 			what += fmt.Sprintf(" with output values %v", outValues(t))
 		}
@@ -306,7 +306,7 @@ func judgeSend(id *identity, rq *request, r runResult, before, after map[string]
 		return
 	}
 	if m.overflow {
-		what := fmt.Sprintf("%s: owned %d; the payments %v plus fee %d exceed 2^64-1 satoshi (and so the funds), yet %s was written", ctx, m.total, m.pays, m.fee, name)
+		what := fmt.Sprintf("%s: owned %d; the payments %v plus fee %d exceed 2^64-1 satoshi (and so the funds), yet a transaction file was written", ctx, m.total, m.pays, m.fee)
 		if t, err := decodeTxFile(content); err == nil {
 			what += fmt.Sprintf(" with output values %v", outValues(t))
 		}
@@ -319,7 +319,7 @@ func judgeSend(id *identity, rq *request, r runResult, before, after map[string]
 		return
 	}
 	if m.insufficient {
-		res.fail(ph, "insufficient-funds/tx-written", fmt.Sprintf("%s: owned %d, needed %d (payments + fee %d), yet %s was written", ctx, m.total, m.need, m.fee, name))
+		res.fail(ph, "insufficient-funds/tx-written", fmt.Sprintf("%s: owned %d, needed %d (payments + fee %d), yet a transaction file (%s) was written", ctx, m.total, m.need, m.fee, name))
 		res.classes = append(res.classes, lb+":written-insufficient")
 		return
 	}
